@@ -880,3 +880,16 @@ PLAN['C06']['rule'] += (' Spec level: spec/MapForestAlg.tla also models Undo as 
                         'subtree rebuilt from the deleted leaf hashes, ancestors re-hashed) and TLC checks that after Undo the map is again '
                         'the one Forest!Nodes prescribes for the state before the block, for every block of every reachable state; the '
                         'variant that does not put the empty root back is refuted (negative demonstration).')
+
+
+# --------------------------------------------------------------------------- a small wide undo configuration in the quick tier
+# (two additions of one block each writing over an empty root needs 11 -> 16 leaves: seeded changes C06-3 and C09-1
+# were only caught by the thorough tier)
+def undo_wide_quick():
+    return core('core_undo_wide', ['mod', 'undo'], 16, 5, stack=1, und=1, minn=11, initlive=2, invariants=False,
+                x='only=undo,rows=0;3;63', timeout=900)
+
+
+_c06q = PLAN['C06']['stages']
+PLAN['C06']['stages'] = lambda tier, seed: _c06q(tier, seed) + ([undo_wide_quick()] if tier == 'quick' else [])
+PLAN['C06']['bounds']['quick'] += '; wide: every state with 11 leaves of which at most 2 live, one block (adds 0..5) and its undo'
